@@ -116,13 +116,13 @@ def gen_cases(rng, tier):
     meta = {}
     n = 0
 
-    def add(data, epoch, tags, members=None, handler="zip", file_mtime=None, nlink=1):
+    def add(data, epoch, tags, members=None, handler="zip", file_mtime=None, nlink=1, check=False):
         nonlocal n
         n += 1
         cid = "z%d" % n
         if file_mtime is None:
             file_mtime = 1000000             # always explicit: the handler's size heuristic looks at the file's own mtime, which the model takes as a parameter
-        cases.append(Case(cid, handler, epoch, data, nlink=nlink, mtime=file_mtime, tags=tags))
+        cases.append(Case(cid, handler, epoch, data, nlink=nlink, mtime=file_mtime, tags=tags + (["check"] if check else []), check=check))
         meta[cid] = members
 
     variants = [{}, {"names": "cp437"}, {"names": "utf8"}, {"data_descriptor": True}, {"extra_local": UT + UX, "extra_central": UT[:9] + UX}, {"comment": b"archive comment"},
@@ -133,7 +133,7 @@ def gen_cases(rng, tier):
             e = rng.choice(EPOCHS)
             data, members = build_zip(rng, e, v)
             fm = rng.choice([e - 1000, e, e + 1, e + 10 ** 6])
-            add(data, e, sorted(v.keys()) or ["plain"], members, handler=rng.choice(["zip", "jar"]), file_mtime=max(fm, 1), nlink=rng.choice([1, 1, 2]))
+            add(data, e, sorted(v.keys()) or ["plain"], members, handler=rng.choice(["zip", "jar"]), file_mtime=max(fm, 1), nlink=rng.choice([1, 1, 2]), check=rng.random() < 0.25)
     # real tools
     for p in glob.glob(os.path.join(REPO, "tests/cases/jars/*.jar")):
         for e in (1577836800, 946684800):
@@ -212,6 +212,18 @@ def oracle_with_meta(meta):
             return fails
         if (c.check or cls in ("Noop", "BadFormat", "Error")) and after != x:
             fails.append(("untouched-violated", "class %s but bytes changed" % cls))
+        if c.check:
+            # check mode only predicts: the file stays as it is; the prediction (the class) is compared with the model's, and a
+            # well-formed archive with a member later than the epoch must be predicted as one that would be modified
+            before = read_members(x)
+            e = c.epoch
+            if before and e is not None and DOS_LO <= e <= DOS_HI and meta.get(c.cid) is not None and cls == "Noop":
+                for i, b in enumerate(before):
+                    bu = dos_to_unix(b["date"], b["time"])
+                    if bu is not None and bu > e:
+                        fails.append(("check-misses-member", "--check reports nothing to do although member %d (%r) is later than the epoch" % (i, b["name"])))
+                        break
+            return fails
         before = read_members(x)
         if before is None or cls in ("BadFormat", "Error"):
             if before is not None and meta.get(c.cid) is not None and not any(t in c.tags for t in ("flip", "trunc")):
